@@ -380,6 +380,19 @@ def run_algebra(ctx, rng, idx):
                 'mi_matrix(normalize=%s) differs from %s' % (
                     normalize, 'MI/log(min(n_x[i],n_y[j]))' if normalize
                     else 'MI of the pooled counts'))
+    # the serial reference implementation agrees with the pooled matrix
+    if idx % 3 == 0:
+        try:
+            with warnings.catch_warnings():
+                warnings.simplefilter('ignore')
+                Xs = [X[:cut], X[cut:]]
+                ms = mi.mi_matrix_serial(Xs, Xs, nxs, nxs, normalize=False)
+                mp_ = mi.mi_matrix(Xs, Xs, NX, NX, normalize=False)
+            if np.abs(ms - mp_).max() > tol:
+                bad('serial-differs', 'mi_matrix_serial differs from '
+                    'mi_matrix by %.3g' % np.abs(ms - mp_).max())
+        except Exception as e:  # noqa
+            bad('serial-raised', '%s: %s' % (type(e).__name__, str(e)[:200]))
     # channel capacity normalisation directly, non-square
     try:
         fz = M.copy()
